@@ -111,4 +111,23 @@ theorem version_roundtrip (a b c : Nat) : decode .version (encVersion a b c) = .
 example : decVersion "5.0".toList = some (0, 5, 0) ∧ encVersion 0 5 0 = "0.5.0".toList ∧
     decVersion "0.5.0".toList = some (0, 5, 0) := by decide +kernel
 
+-- ---------------------------------------------------------------- attribute lists
+
+/-- **attribute lists of any length**: a list of words (no comma, no blank) is read back from the text
+    `format_list` writes - the empty list included.  (The single exception `[""]` has the same text as the
+    empty list and is read as the empty list.) -/
+theorem list_roundtrip (items : List Str) (hw : C07Codec.Words items) (hne : items ≠ [[]]) :
+    decode .list (encList items) = .ok (.strs items) := by
+  simp only [decode, C07Codec.decList_encList items hw hne]
+
+/-- the same for the list fields whose brackets are literals of the line pattern (`ScoreAttributesList`,
+    `AnnotationType`, `OrnamentType`, `RepeatEndType`, `Onsets`) -/
+theorem list_body_roundtrip (items : List Str) (hw : C07Codec.Words items) (hne : items ≠ [[]])
+    (hbr : ∀ x, items.head? = some x → x.head? ≠ some '[') :
+    decode .list (encListBody items) = .ok (.strs items) := by
+  simp only [decode, C07Codec.decList_encListBody items hw hne hbr]
+
+example : decList "[]".toList = [] ∧ decList [] = [] ∧ decList "[staff1, s ,v1]".toList = ["staff1".toList, "s".toList, "v1".toList]
+    ∧ encList [] = "[]".toList := by decide +kernel
+
 end C07
